@@ -93,4 +93,14 @@ CHECKS = {
         "note": ASSUME % "T1, T3, T5, T6, T8",
         "technique": "static analysis: sibling cross-check of send-path descriptors, who-may-call on runtime entry points, provenance",
     },
+    "C18": {
+        "text": "Configuration diff: for each of the function families of the default build, the behavioural skeleton (graph of channel operations, hook calls, spawns, timers, thread/runtime calls, crate-local calls, constructions of result/error/message values, constant flag assignments, returns, panics) under every analysed feature set equals the default skeleton after erasing an explicit additive allow-list (logging, clock reads, metrics, task-local scoping, wait-for bookkeeping, pure getters). Any added/removed event or control-flow edge between events is a violation naming both. Every other check is itself evaluated under the feature sets. The deadlock panic is allowed iff C15-O15.5 holds - it does not (known finding F1').",
+        "note": ASSUME % "T6, T8" + " The allow-list entries are trusted to be observation-only (each is a single callee pattern with a reason, see engine/skeleton.py).",
+        "technique": "static analysis: cross-configuration comparison of event graphs extracted from MIR (sibling/cfg-variant cross-check)",
+    },
+    "C20": {
+        "text": "With `metrics`: one MessageProcessingGuard::new site, dominated by the Envelope arm, dominating the handler call, once per iteration, and stored in the coroutine across the handler's suspension point (compiler layout) - so exactly the handled user messages are measured, stop markers and leftovers never; Drop records once with start.elapsed(); inventory of all writers of the collector's atomics (count: fetch_add(1) only; max: fetch_max only; total: saturating fetch_update only; all on every path with the same duration); snapshot fields are computed by the same expression trees as the accessors; ActorRef accessors forward; handles hold Arc<MetricsCollector> and every construction copies it; one collector per spawn. Not decided: avg<=max / max>=longest as arithmetic (paper argument from the decided structure).",
+        "note": ASSUME % "T7, T8, T9" + " Evaluated under feature sets containing metrics.",
+        "technique": "static analysis: dominance + coroutine-layout typestate for the RAII guard, who-may-write inventory of atomics, expression-tree sibling comparison",
+    },
 }
